@@ -58,6 +58,9 @@ func (g *gen) agentSeq(depth int) {
 		g.caseMark("agent-rand", i)
 		g.emit("AG new")
 		nid := 1 + g.r.intn(64)
+		if i%10 == 3 {
+			nid = 120 + g.r.intn(200) // more transactions than any fixed-size scratch space inside the agent
+		}
 		ids := make([]string, nid)
 		for j := range ids {
 			b := g.r.bytes(12)
@@ -68,6 +71,14 @@ func (g *gen) agentSeq(depth int) {
 			ids[j] = showHex(b)
 		}
 		now := 100
+		if nid >= 120 { // mass registration, then one Collect that must time all of the expired ones out
+			for j := range ids {
+				g.emit("AG start %s %d", ids[j], now+g.r.intn(40)-10)
+			}
+			now += 20
+			g.emit("AG collect %d", now)
+			g.emit("AG stop %s", ids[g.r.intn(nid)])
+		}
 		for k := g.r.intn(2000); k > 0; k-- {
 			id := ids[g.r.intn(nid)]
 			switch op := g.r.intn(20); {
